@@ -6,7 +6,7 @@ patch="$1"; shift
 cd /repo || exit 2
 if [ -n "$(git status --porcelain --untracked-files=no)" ]; then echo "repo not clean"; exit 2; fi
 if ! git apply --3way "$patch" 2>/tmp/apply.err; then
-  if ! git apply "$patch" 2>>/tmp/apply.err; then echo "APPLY-FAILED $(head -3 /tmp/apply.err)"; git checkout -q -- . ; git reset -q; exit 3; fi
+  if ! git apply "$patch" 2>>/tmp/apply.err; then echo "APPLY-FAILED $(head -3 /tmp/apply.err)"; git reset -q --hard HEAD; exit 3; fi
 fi
 git reset -q
 for p in "$@"; do
